@@ -88,7 +88,7 @@ func runMutant(self, id, repo, verif string, m mutantSpec) mutantResult {
 		return r
 	}
 	env := append(os.Environ(), "GOFLAGS=-mod=mod", "GOPROXY=off", "GOSUMDB=off", "GOTOOLCHAIN=local", "GOWORK=off")
-	b := exec.Command("go", "build", "./...")
+	b := exec.Command("go", "build", "-trimpath", "./...")
 	b.Dir, b.Env = src, env
 	if out, err := b.CombinedOutput(); err != nil {
 		r.Status, r.Reported = "skipped-no-compile", firstLines(string(out), 3)
